@@ -3463,6 +3463,30 @@ func (c *Ctx) mcardFn(mt *types.Map) string {
 	return card
 }
 
+// mtrueFn declares (once per key sort) the number of keys of a map[K]bool that are present with the value true:
+// mtrue_K(domain set, value array). Used for counters computed by ranging over such a map.
+func (c *Ctx) mtrueFn(mt *types.Map) string {
+	ks := c.sortOf(mt.Key())
+	name := "mtrue_" + sanitize(ks)
+	if !c.dts[name] {
+		c.dts[name] = true
+		wit := "mtruewit_" + sanitize(ks)
+		d, v := fmt.Sprintf("(d (Array %s Bool))", ks), fmt.Sprintf("(v (Array %s Bool))", ks)
+		c.dtDecls = append(c.dtDecls,
+			fmt.Sprintf("(declare-fun %s ((Array %s Bool) (Array %s Bool)) Int)", name, ks, ks),
+			fmt.Sprintf("(declare-fun %s ((Array %s Bool) (Array %s Bool)) %s)", wit, ks, ks, ks),
+			fmt.Sprintf("(assert (forall (%s %s) (! (>= (%s d v) 0) :pattern ((%s d v)))))", d, v, name, name),
+			fmt.Sprintf("(assert (forall (%s) (! (= (%s ((as const (Array %s Bool)) false) v) 0) :pattern ((%s ((as const (Array %s Bool)) false) v)))))", v, name, ks, name, ks),
+			// a key enters the domain / leaves it / its value changes
+			fmt.Sprintf("(assert (forall (%s %s (k %s)) (! (= (%s (store d k true) v) (+ (%s d v) (ite (select d k) 0 (ite (select v k) 1 0)))) :pattern ((%s (store d k true) v)))))", d, v, ks, name, name, name),
+			fmt.Sprintf("(assert (forall (%s %s (k %s)) (! (= (%s (store d k false) v) (- (%s d v) (ite (and (select d k) (select v k)) 1 0))) :pattern ((%s (store d k false) v)))))", d, v, ks, name, name, name),
+			fmt.Sprintf("(assert (forall (%s %s (k %s) (b Bool)) (! (= (%s d (store v k b)) (+ (%s d v) (ite (select d k) (- (ite b 1 0) (ite (select v k) 1 0)) 0))) :pattern ((%s d (store v k b))))))", d, v, ks, name, name, name),
+			// two domains with different counts differ at a witness key
+			fmt.Sprintf("(assert (forall ((d1 (Array %s Bool)) (d2 (Array %s Bool)) %s) (! (or (= (%s d1 v) (%s d2 v)) (not (= (select d1 (%s d1 d2)) (select d2 (%s d1 d2))))) :pattern ((%s d1 v) (%s d2 v)))))", ks, ks, v, name, name, wit, wit, name, name))
+	}
+	return name
+}
+
 func asciiOnly(s string) bool {
 	for i := 0; i < len(s); i++ {
 		if s[i] >= 128 {
